@@ -322,6 +322,10 @@ class StmtMixin:
                 if out in ("next", "continue"):
                     ghosts(q, it["advance"](pos, elem, q))
                     self.check_clauses(tag, "preserved", invs, q, pre_env=pre_env)
+                    # vacuity canary for the loop body: the hypotheses at the end of an iteration must not be contradictory
+                    from .core import Obligation
+                    self.obls.append(Obligation(self.cur.qual, "canary", f"loop{ordinal}-body-feasible", 0, list(q.hyps), z3.BoolVal(False),
+                                                list(q.trace), "canary"))
                 elif out == "break":
                     for g in (f"_it{ordinal}", f"_j{ordinal}", f"_done{ordinal}"):
                         q.env.pop(g, None)
